@@ -211,7 +211,9 @@ func classify(body []byte) (class string, unmarshals bool) {
 		return "unknown-command-type", true
 	}
 	sub, has := exts[ExtField(int(typ))]
-	if !has && badExt[ExtField(int(typ))] {
+	if badExt[ExtField(int(typ))] {
+		// an occurrence of the extension with another wire type is kept in the
+		// raw extension bytes and makes the lazy decode fail
 		return "undecodable-extension", true
 	}
 	if !has {
@@ -907,6 +909,20 @@ func (l *lane) runCase(c *execCase) bool {
 		// no Go crash report: killed from outside, or the worker's own start-up failed
 		r.Inconclusive(fmt.Sprintf("(c) worker ended without a Go crash report after case %s: %s", c.ID, firstLine(rep)))
 		return l.fresh()
+	}
+	// The cause class of the signature comes from what the node actually died
+	// of; the structural parse of the body only splits the nil-extension family
+	// (it cannot replace the real decoder: repeated / mistyped occurrences of
+	// an extension are merged in ways a schema walk does not reproduce).
+	switch pc := panicClass(kind); {
+	case pc == "cannot-apply-command":
+		class = "unknown-command-type"
+	case pc == "nil-extension-type-assertion":
+		if class != "missing-extension" && class != "wrong-extension" {
+			class = "undecodable-extension"
+		}
+	default:
+		class = pc + "/" + class
 	}
 	if !inMeta {
 		// the worker runs no harness code after start-up: still the node dying
